@@ -37,6 +37,8 @@ fn media(s: &str) -> MediaType {
     "cts" => MediaType::Cts,
     "dts" => MediaType::Dts,
     "tsx" => MediaType::Tsx,
+    "unknown" => MediaType::Unknown,
+    "json" => MediaType::Json,
     _ => MediaType::TypeScript,
   }
 }
